@@ -22,7 +22,16 @@ func receiveCaps() userCaps {
 
 // receiveLemma runs one symbolic ReceiveMessage and asserts the obligations of property p
 // ("" = all). eventsMayFail additionally lets every event emission fail (C14).
-func receiveLemma(p string, eventsMayFail bool) { receiveLemmaN(p, eventsMayFail, maxSigs, -1) }
+// quick tier: the lemmas whose subject is the attestation itself (C01, C03) use two attesters and two
+// signatures, the others one of each; thorough tier: two everywhere.
+func lemmaSigs(p string) int {
+	if verifrt.Tier() == 1 || p == "C01" || p == "C03" || p == "C09" {
+		return maxSigs
+	}
+	return 1
+}
+
+func receiveLemma(p string, eventsMayFail bool) { receiveLemmaN(p, eventsMayFail, lemmaSigs(p), -1) }
 
 // receiveLemmaN: sigs bounds attesters and signatures; before >= 0 first lets a DIFFERENT keeper
 // instance successfully execute transaction `before` on an arbitrary other state in the same process.
